@@ -73,6 +73,16 @@ type Run struct {
 
 	cntMu  sync.Mutex
 	counts map[string]int64
+	cfgJ   []byte
+}
+
+func (r *Run) cfgJSON() []byte {
+	r.cntMu.Lock()
+	defer r.cntMu.Unlock()
+	if r.cfgJ == nil {
+		r.cfgJ = r.Cfg.JSON()
+	}
+	return r.cfgJ
 }
 
 // Count adds to a coverage counter (buffered per run, flushed into the report).
@@ -139,7 +149,7 @@ func (x *Ctx) Violate(sig, msg, expected, observed string, extra ...Op) {
 	if x.hist != nil {
 		hl = len(x.hist) + len(extra)
 	}
-	if x.Run.Rep.Skip(sig, hl) {
+	if x.Run.Rep.SkipCfg(sig, hl, x.Run.cfgJSON()) {
 		return
 	}
 	h := x.History()
@@ -147,7 +157,7 @@ func (x *Ctx) Violate(sig, msg, expected, observed string, extra ...Op) {
 		h = append(h, o.Label())
 	}
 	v := &explore.Violation{Property: x.Run.Property, Engine: "hand", Signature: sig, Message: msg,
-		Config: x.Run.Cfg.JSON(), History: h, Expected: expected, Observed: observed}
+		Config: x.Run.cfgJSON(), History: h, Expected: expected, Observed: observed}
 	cfg := x.Run.Cfg
 	v.GoTestFn = func() string { return goTest(cfg, h) }
 	v.Confirm = func() (bool, string) { return ReplayViolation(v) }
